@@ -327,6 +327,9 @@ class BuiltinMixin:
             return VC('None')
         if a.k == 'opq':
             return VS(self.ufunc('str_of_opq', OPQ, SEQ)(a.t))
+        if a.k in ('obj', 'ref', 'list', 'dict', 'tuple', 'cls'):
+            # A-LOG: __str__/__repr__ of library objects are field reads (text content not modelled: an opaque string)
+            return VS(self.sym('text', SEQ))
         if a.k == 'enum':
             # Enum.__str__ (python 3.12): 'Class.MEMBER' unless a mixed-in type defines __str__ (IntEnum/ReprEnum: value)
             cls, m = a.t
@@ -493,6 +496,16 @@ class BuiltinMixin:
         self.call_value(args[0], [], {}, node)
         return SV('opq', self.sym('seconds', OPQ), 'float')
 
+    def bi_Counter(self, args, kw, node):
+        """collections.Counter: a dict whose missing keys read as 0; update(iterable) counts elements"""
+        h = HDict({})
+        h.default = SV('func', FuncVal(builtin='int', name='int'))
+        h.is_counter = True
+        r = SV('dict', self.st.alloc(h))
+        if args:
+            self.call_builtin_method(r, 'update', [args[0]], {}, node)
+        return r
+
     def bi_slice(self, args, kw, node):
         if len(args) == 1:
             return SV('slice', (NONE, args[0]))
@@ -544,6 +557,11 @@ class BuiltinMixin:
                 if kk in h.d:
                     return h.d[kk]
                 return args[1] if len(args) > 1 else kw.get('default', NONE)
+            if name == 'update' and getattr(h, 'is_counter', False):
+                for x in self.iter_concrete(args[0]):
+                    kk = key_of(x)
+                    h.d[kk] = VI(self.as_int(h.d.get(kk, VI(0))) + 1)
+                return NONE
             if name == 'update':
                 h.d.update(self.st.heap[args[0].t].d)
                 return NONE
